@@ -355,6 +355,34 @@ def case_reduce(ctx, inp):
             if got[0] != "ok" or dict(map(tuple, got[1])) != want:
                 ctx.fail("foldby differs from the key-wise sequential fold", observed=got, expected=want)
             ctx.branch("foldby-homomorphism")
+    elif kind == "foldbynoci":
+        # foldby(key, binop, initial, combine) WITHOUT combine_initial: levels are merge_with(reduce(combine))
+        km, op, init, cop = inp["km"], inp["op"], inp["init"], inp["cop"]
+        got = run(lambda: [list(kv) for kv in b.foldby(lambda x: x % km, BINOPS[op], init, BINOPS[cop],
+                                                        split_every=se).compute(scheduler="sync")])
+        ctx.eq("Bag.foldby (no combine_initial)", ctx.lean(Sym("foldbynoci"), km, Sym(op), init, Sym(cop), see, parts),
+               got[1] if got[0] == "ok" else got)
+        if [op, cop, init] in [list(h) for h in HOM]:
+            want = {}
+            for x in flat:
+                want[x % km] = BINOPS[op](want.get(x % km, init), x)
+            if got[0] != "ok" or dict(map(tuple, got[1])) != want or len(got[1]) != len(want):
+                ctx.fail("foldby (no combine_initial) differs from the key-wise sequential fold", observed=got, expected=want)
+            ctx.branch("foldby-homomorphism")
+    elif kind == "foldbynoinit":
+        # foldby(key, binop[, combine=…]) with no initial value at all
+        km, op, cop = inp["km"], inp["op"], inp["cop"]
+        got = run(lambda: [list(kv) for kv in b.foldby(lambda x: x % km, BINOPS[op], combine=BINOPS[cop],
+                                                        split_every=se).compute(scheduler="sync")])
+        ctx.eq("Bag.foldby (no initial)", ctx.lean(Sym("foldbynoinit"), km, Sym(op), Sym(cop), see, parts),
+               got[1] if got[0] == "ok" else got)
+        if op == cop and op in ("add", "mul", "max", "min"):
+            want = {}
+            for x in flat:
+                want[x % km] = BINOPS[op](want[x % km], x) if x % km in want else x
+            if got[0] != "ok" or dict(map(tuple, got[1])) != want or len(got[1]) != len(want):
+                ctx.fail("foldby (no initial) differs from the key-wise functools.reduce", observed=got, expected=want)
+            ctx.branch("foldby-associative-operator")
     if len(parts) > see:
         ctx.branch("multi-level-tree")
     if any(not p for p in parts) and len(parts) > 1:
@@ -999,22 +1027,23 @@ def generate(ctx):
     for _ in range(ctx.n(80, 1200)):
         parts = gen_parts(rng, maxparts=rng.choice([1, 3, 9]), maxlen=4, lo=-6, hi=12)
         yield "stats", {"parts": parts, "ddof": rng.choice([0, 0, 1, 1, 2])}
-    kinds = ["fold", "fold", "foldnoinit", "sum", "max", "topk", "freq", "foldby"]
-    for _ in range(ctx.n(450, 6000)):
+    kinds = ["fold", "fold", "foldnoinit", "sum", "max", "topk", "freq", "foldby", "foldbynoci", "foldbynoinit"]
+    for _ in range(ctx.n(520, 7000)):
         parts = gen_parts(rng, maxparts=rng.choice([4, 9, 20]), lo=0 if rng.random() < 0.5 else -4)
         kind = rng.choice(kinds)
         inp = {"parts": parts, "se": rng.choice([None, 2, 2, 3, 4, False]), "kind": kind, "k": rng.randint(0, 5)}
-        if kind in ("fold", "foldby"):
+        if kind in ("fold", "foldby", "foldbynoci"):
             if rng.random() < 0.6:
                 inp["op"], inp["cop"], inp["init"] = rng.choice(HOM)
             else:
                 inp["op"], inp["cop"], inp["init"] = rng.choice(["add", "sub", "lin", "right", "max"]), rng.choice(["add", "sub", "left", "max"]), rng.randint(-2, 3)
             inp["cinit"] = inp["init"]
             inp["km"] = rng.randint(1, 4)
-        if kind == "foldnoinit":
+        if kind in ("foldnoinit", "foldbynoinit"):
             inp["op"] = rng.choice(["add", "mul", "max", "sub", "lin"])
             inp["cop"] = inp["op"] if rng.random() < 0.7 else rng.choice(["add", "left"])
-        if kind in ("freq", "foldby"):
+            inp["km"] = rng.randint(1, 4)
+        if kind in ("freq", "foldby", "foldbynoci", "foldbynoinit"):
             inp["parts"] = [[abs(x) for x in p] for p in parts]
         yield "reduce", inp
     for n in range(1, 400 if not th else 2001):
